@@ -202,6 +202,12 @@ where
             g(guarded(&mut f, |f| f.handle_timer(Timer::ChangeSuspectToDown { member_id: p, incarnation: 1, token }, &mut rt)))?.ok();
         }
     }
+    // follow-up sends on the same instance: whatever the trigger left behind
+    // (e.g. a header that failed to encode at this packet size) must not
+    // leak into the next datagrams
+    g(guarded(&mut f, |f| f.gossip(&mut rt)))?.ok();
+    let dst9 = (w.ident)(9);
+    g(guarded(&mut f, |f| f.announce(dst9, &mut rt)))?.ok();
     st.cases += 1;
     if input_too_big {
         st.skipped_inputs_too_big += 1;
@@ -332,6 +338,9 @@ fn var_ident(k: usize) -> Id {
 fn s_ident(k: usize) -> SId {
     SId { a: k as u64 * 1_000_003, s: "x".repeat(k % 4) }
 }
+fn b_ident(k: usize) -> BId {
+    BId { ip: [10, 0, (k / 250) as u8, (k % 250) as u8], port: 7000 + k as u16, tag: 0, flag: k % 2 == 0 }
+}
 fn n_ident(k: usize) -> NId {
     NId { a: (k as u64) << (7 * (k % 5)), g: k as u32 }
 }
@@ -354,6 +363,7 @@ pub fn c07(tier: &str) -> Report {
     one!(World { label: "postcard (String identity)", codec: foca::PostcardCodec, wire: PostcardWire, ident: s_ident });
     one!(World { label: "bincode standard() (String identity)", codec: foca::BincodeCodec(bincode::config::standard()), wire: BincodeWire, ident: s_ident });
     one!(World { label: "postcard (integer identity)", codec: foca::PostcardCodec, wire: PostcardWire, ident: n_ident });
+    one!(World { label: "postcard (byte-field identity)", codec: foca::PostcardCodec, wire: PostcardWire, ident: b_ident });
     rep.evaluations = total.datagrams;
     rep.distinct_nontrivial = total.distinct.len() as u64;
     rep.set("size_sweep", json!(codecs));
